@@ -262,6 +262,23 @@ def w_shape_copies(idx):
                 elif any(Node.get_node_instance(x.id) is not x for x in w5.nodes):
                     out.append(("copy:registry-entry-taken-over:host-random-state-repeats", "", replay))
             n += 1
+        # the registry is whatever Node.store names NOW: an application that starts a new document by rebinding it
+        # (Node.store = {}) finds every copy registered there, like every node it constructs
+        if i % 4 == 3:
+            old_store = Node.store
+            try:
+                Node.store = {}
+                w6 = World.build(t["from"])
+                nb6 = len(w6.nodes)
+                ok6, r6, _e = w6.apply("copy", op["args"])
+                if ok6:
+                    lost = [w6.ident(x) for x in w6.nodes[nb6:] if Node.store.get(x.id) is not x]
+                    fresh_lost = Node.store.get(Node("probe").id) is None
+                    if lost and not fresh_lost:
+                        out.append(("copy:not-registered:registry-rebound", f"copies {lost} are not in the registry that Node.store names", replay))
+            finally:
+                Node.store = old_store
+            n += 1
         # the same source, its child lists assigned through the `children` property (no parent pointer is set that way;
         # a tree is its child lists): below the copy's root every parent link must point inside the copy all the same
         if i % 2 == 0 and len(t["from"]["kids"]) > 1:
